@@ -70,8 +70,22 @@ Proof. exact (xeval_default_limit O pad srcs sentinel cb fault). Qed.
 Theorem C07_illegal_limit_rejected : forall fuel il d pi n st r e, (1 <= fuel)%nat -> norm_limit r = Err e ->
   xeval O pad srcs sentinel cb fault fuel il d pi n st (Some r) = (n, Err e).
 Proof. exact (xeval_bad_limit O pad srcs sentinel cb fault). Qed.
+(* try/except in a callback.  The callback terms of a decorated call are evaluated by
+   [ev (call ... fuel)] (Proofs/EvalP.v, call_unfold); when the protected term r1 of
+   [RTry c r1 r2] fails, the state s1 the handler r2 starts from has the ContextVar of the state s the
+   protected term started from - the failed nested evaluation leaves nothing behind - so a fallback
+   call made by the handler inherits the enclosing limit, depth and precision.  (In the explicit
+   evaluator [xev] the handler is by definition evaluated with the same limit / depth / probability;
+   C07_contextvar_is_explicit_passing above covers terms with RTry.) *)
+Theorem C07_handler_sees_enclosing_context : forall fuel c r1 r2 s s1 e,
+  ev (call O pad srcs sentinel cb fault fuel) r1 s = (s1, Err e) ->
+  fst s1 = fst s /\
+  (c e = true -> ev (call O pad srcs sentinel cb fault fuel) (RTry c r1 r2) s
+                 = ev (call O pad srcs sentinel cb fault fuel) r2 s1).
+Proof. exact (call_try_handler_context O pad srcs sentinel cb fault). Qed.
 End C07.
 Print Assumptions C07_contextvar_is_explicit_passing.
+Print Assumptions C07_handler_sees_enclosing_context.
 Print Assumptions C07_top_level_starts_at_depth_zero.
 Print Assumptions C07_cut_gives_sentinel.
 Print Assumptions C07_cut_test_whole.
